@@ -834,6 +834,13 @@ func probeQueries() []query {
 	} {
 		out = append(out, query{text: t, note: fmt.Sprintf("probe-literal-in-fragment-twin-%d", i), group: "literal-in-fragment-twins"})
 	}
+	// one fragment spread several times, the spreads differing in their directives
+	for i, body := range []string{
+		"...G ...G", "...G @skip(if: true) ...G", "...G ...G @skip(if: true)", "...G @skip(if: true) ...G @skip(if: true)",
+		"...G @include(if: false) ...G @skip(if: true)", "...G @include(if: true) ...G @include(if: false)", "...G @skip(if: false) ...G @skip(if: false)",
+	} {
+		out = append(out, query{text: "{ obj { " + body + " } } fragment G on O { y }", note: fmt.Sprintf("probe-repeated-spread-%d", i), group: "repeated-spread-directives"})
+	}
 	for _, n := range names {
 		q := query{text: texts[n], note: "probe-" + n}
 		if n == "literal-vs-variable" {
